@@ -200,8 +200,11 @@ def finish(ctx, t0, explanation, trusted, extra_cov=None, replay_only=None):
                 kf.append(o)
             else:
                 viol.append(o)
-    os.makedirs(os.path.join(VERIF, "evidence"), exist_ok=True)
-    os.makedirs(os.path.join(VERIF, "reports"), exist_ok=True)
+    # runs against a scratch copy (--repo, used by the mutant self-tests) must not overwrite the
+    # evidence / reports of the real tree
+    OUT = VERIF if os.path.realpath(REPO) == "/repo" else os.path.join(REPO, ".thv-out")
+    os.makedirs(os.path.join(OUT, "evidence"), exist_ok=True)
+    os.makedirs(os.path.join(OUT, "reports"), exist_ok=True)
     n = len(ctx.obs)
     distinct = len({o.key for o in ctx.obs if o.nontrivial})
     # samples: violations first, then a spread of obligations
@@ -243,10 +246,10 @@ def finish(ctx, t0, explanation, trusted, extra_cov=None, replay_only=None):
         "wall_s": round(time.time() - t0, 3),
         "violations": len(viol),
     }
-    with open(os.path.join(VERIF, "evidence", "%s.json" % prop), "w") as f:
+    with open(os.path.join(OUT, "evidence", "%s.json" % prop), "w") as f:
         json.dump(ev, f, indent=1)
     # report (also the replay file)
-    rp = os.path.join(VERIF, "reports", "%s.txt" % prop)
+    rp = os.path.join(OUT, "reports", "%s.txt" % prop)
     with open(rp, "w") as f:
         f.write("# %s  tier=%s  obligations=%d violated=%d known=%d\n" % (prop, ctx.tier, n, len(viol), len(kf)))
         for o in viol:
